@@ -386,22 +386,63 @@ func ruleSwapOrder(c *Ctx) {
 		}
 	}
 	c.Floor("ps assignments in persist", nps, 3)
-	// failed flush: each old map put back must first receive what was written meanwhile
+	// failed flush: what the store continues with must hold the flushed map *and* what was written meanwhile. Two shapes
+	// are read: (a) the flushed map is put back after the writes were copied into it (the original shape - which writes
+	// into a map a seek in flight may still be reading, see the frozen-layer clause below), (b) the field is assigned
+	// a merge of both: a call one argument of which is tempstore.<fld> and another s.<fld>, to a function that clones
+	// its first parameter and copies the second over it.
+	tmpSym := "local<-type:pkg/core/storage.MemCachedStore"
+	mergesBoth := func(e ast.Expr, sym string) bool {
+		call, ok := ast.Unparen(e).(*ast.CallExpr)
+		if !ok || len(call.Args) != 2 {
+			return false
+		}
+		a0, a1 := f.DirectMentions(call.Args[0]), f.DirectMentions(call.Args[1])
+		if !(a0[sym] && a0[tmpSym] && a1[sym] && !a1[tmpSym]) {
+			return false
+		}
+		cf := calleeFunc(f.Info, call)
+		if cf == nil {
+			return false
+		}
+		hd := c.P.DeclOf(cf)
+		if hd == nil || hd.Decl.Body == nil {
+			return false
+		}
+		hf := c.P.NewFuncCFG(hd)
+		clones, copies := false, false
+		for _, cs := range hf.CallSites("maps.Clone") {
+			if len(cs.call.Args) == 1 && hf.DirectMentions(cs.call.Args[0])["param#0"] {
+				clones = true
+			}
+		}
+		for _, cs := range hf.CallSites("maps.Copy") {
+			if len(cs.call.Args) == 2 && hf.DirectMentions(cs.call.Args[1])["param#1"] && !hf.DirectMentions(cs.call.Args[0])["param#0"] {
+				copies = true
+			}
+		}
+		return clones && copies
+	}
 	for _, fld := range []string{"mem", "stor"} {
 		sym := "pkg/core/storage#" + fld
 		n := 0
 		for _, w := range f.WriteSites(sym) {
 			as, isAssign := w.node.(*ast.AssignStmt)
-			if !isAssign || !f.DirectMentions(as.Rhs[0])["local<-type:pkg/core/storage.MemCachedStore"] {
+			if !isAssign || !f.DirectMentions(as.Rhs[0])[tmpSym] {
 				continue // installing fresh maps
 			}
 			n++
+			key := "persist.failed-flush.merge." + fld
+			if mergesBoth(as.Rhs[0], sym) {
+				c.OK(key, c.P.Pos(as.Pos()), fmt.Sprintf("after a failed flush the store continues with a new %s map that holds the flushed keys overridden by what was written during the flush", fld))
+				continue
+			}
 			// a maps.Copy(tempstore.<fld>, s.<fld>) must precede on every path from the flush
 			var copies []site
 			for _, cs := range f.CallSites("maps.Copy") {
 				if len(cs.call.Args) == 2 {
 					d, s2 := f.DirectMentions(cs.call.Args[0]), f.DirectMentions(cs.call.Args[1])
-					if d[sym] && d["local<-type:pkg/core/storage.MemCachedStore"] && s2[sym] && !s2["local<-type:pkg/core/storage.MemCachedStore"] {
+					if d[sym] && d[tmpSym] && s2[sym] && !s2[tmpSym] {
 						copies = append(copies, cs)
 					}
 				}
@@ -409,7 +450,6 @@ func ruleSwapOrder(c *Ctx) {
 			avoid := blocksOf(copies)
 			r := f.reach(fl.blk.Succs, avoid, storageAssume)
 			_, reached := r[w.blk]
-			key := "persist.failed-flush.merge." + fld
 			if reached && !avoid[w.blk] {
 				c.Fail(key, c.P.Pos(as.Pos()), fmt.Sprintf("after a failed flush the old %s map is put back without merging the writes made during the flush (maps.Copy(tempstore.%s, s.%s) missing on this path): those writes are lost", fld, fld, fld))
 			} else {
@@ -419,6 +459,46 @@ func ruleSwapOrder(c *Ctx) {
 		if n == 0 {
 			c.Lost("persist.failed-flush."+fld, "no restore of the old "+fld+" map found on the failure branch")
 		}
+	}
+	// frozen layer: once the tempstore is installed as the lower layer (s.ps = tempstore) seeks that start during the
+	// flush capture it and read its maps under *its* mutex, which persist does not hold - "nothing ever changes it" is
+	// what makes that sound. No statement of persist writes into a map of the tempstore after that point: no
+	// maps.Copy with it as destination, no element store, no delete/clear.
+	nfw := 0
+	for _, b := range f.G.Blocks {
+		if !b.Live {
+			continue
+		}
+		for _, nd := range b.Nodes {
+			bad := ""
+			inspectNoLit(nd, func(x ast.Node) bool {
+				switch y := x.(type) {
+				case *ast.CallExpr:
+					cs := f.calleeSym(y)
+					if (cs == "maps.Copy" || cs == "builtin.delete" || cs == "builtin.clear") && len(y.Args) >= 1 {
+						if m := f.DirectMentions(y.Args[0]); m[tmpSym] && (m["pkg/core/storage#mem"] || m["pkg/core/storage#stor"]) {
+							bad = types.ExprString(y)
+						}
+					}
+				case *ast.AssignStmt:
+					for _, l := range y.Lhs {
+						if ix, ok := ast.Unparen(l).(*ast.IndexExpr); ok {
+							if m := f.DirectMentions(ix.X); m[tmpSym] && (m["pkg/core/storage#mem"] || m["pkg/core/storage#stor"]) {
+								bad = types.ExprString(l)
+							}
+						}
+					}
+				}
+				return true
+			})
+			if bad != "" {
+				nfw++
+				c.Fail(fmt.Sprintf("persist.frozen-layer#%d", nfw), c.P.Pos(nd.Pos()), fmt.Sprintf("persist writes into a map of the tempstore (%s) after installing it as the lower layer: a seek that started during the flush iterates that map under the tempstore's own mutex, which persist does not hold - concurrent map iteration and map write", trunc(bad, 80)))
+			}
+		}
+	}
+	if nfw == 0 {
+		c.OK("persist.frozen-layer", c.P.Pos(fd.Decl.Pos()), "no statement of persist writes into a map of the tempstore")
 	}
 }
 
